@@ -1319,7 +1319,8 @@ class Stage:
     @property
     def _transcribed(self):
         if not self.is_transcribed:
-            self.master._transcribe()
+            # Go through the master's own logic (transcribe a copy, never the user's objects)
+            self.master._transcribed
         if self._is_original:
             return self._augmented 
         else:
